@@ -14,6 +14,7 @@ import (
 	"bytes"
 	"encoding/json"
 	"fmt"
+	"os"
 	"sort"
 	"strings"
 	"time"
@@ -78,10 +79,18 @@ type Exec struct {
 	CtxAt     []int
 }
 
+// localClock: set in the child processes that main starts under TZ=Europe/London and TZ=UTC
+var localClock = os.Getenv("C02_LOCAL_CLOCK") != ""
+
 func resetSources(seed int64, call int) {
 	s := seed*1000 + int64(call)
 	uuids.SetGenerator(uuids.NewSeededGenerator(s, dates.Now))
-	dates.SetNowFunc(dates.NewSequentialNow(time.Date(2020, 1, 1, 12, 0, 0, 123456789, time.UTC).Add(time.Duration(call)*time.Hour), time.Second))
+	if localClock {
+		// what a host with the default clock has: times in the process's Local zone (child processes under TZ=…), in winter (a zone at UTC+0 then stores `…Z`)
+		dates.SetNowFunc(dates.NewSequentialNow(time.Date(2024, 1, 15, 12, 0, 0, 123456789, time.Local).Add(time.Duration(call)*time.Hour), time.Second))
+	} else {
+		dates.SetNowFunc(dates.NewSequentialNow(time.Date(2020, 1, 1, 12, 0, 0, 123456789, time.UTC).Add(time.Duration(call)*time.Hour), time.Second))
+	}
 	random.SetGenerator(random.NewSeededGenerator(s))
 }
 
@@ -437,7 +446,11 @@ func diffPath(a, b string) string {
 	}
 	p, _, _ := firstDiff(x, y, "")
 	if p == "" {
-		return "bytes-only" // equal as JSON values: an escape on one side, the character on the other (invalid UTF-8 in memory)
+		// equal as JSON values: an escape on one side, the character on the other (invalid UTF-8 in memory)
+		if rp := replacementPath(x, ""); rp != "" {
+			return "bytes-only:invalid-utf8:" + rp
+		}
+		return "bytes-only"
 	}
 	return p
 }
@@ -451,7 +464,7 @@ func jsonDiff(a, b string) string {
 	if p == "" && l == nil && r == nil {
 		note := ""
 		if strings.Contains(a, "\\ufffd") != strings.Contains(b, "\\ufffd") {
-			note = " (a \\ufffd escape on one side only: the value in memory is not valid UTF-8)"
+			note = " (a \\ufffd escape on one side only: the value in memory is not valid UTF-8; first such member: " + replacementPath(x, "") + ")"
 		}
 		return "same JSON value, different bytes" + note + ": " + clip(a, 200) + " | " + clip(b, 200)
 	}
@@ -616,6 +629,38 @@ func tokenKey(a, b string) string {
 				return ":" + key
 			}
 			return ""
+		}
+	}
+	return ""
+}
+
+// replacementPath: generalised path of the first string member that contains U+FFFD
+func replacementPath(x any, path string) string {
+	switch v := x.(type) {
+	case string:
+		if strings.ContainsRune(v, '\ufffd') {
+			return path
+		}
+	case map[string]any:
+		keys := make([]string, 0, len(v))
+		for k := range v {
+			keys = append(keys, k)
+		}
+		sort.Strings(keys)
+		for _, k := range keys {
+			kk := k
+			if looksLikeUUID(k) {
+				kk = "<uuid>"
+			}
+			if p := replacementPath(v[k], path+"."+kk); p != "" {
+				return p
+			}
+		}
+	case []any:
+		for _, e := range v {
+			if p := replacementPath(e, path+"[]"); p != "" {
+				return p
+			}
 		}
 	}
 	return ""
